@@ -46,7 +46,8 @@ NumOps  == {R_m1, R_0, R_h, R_1, R_2, R_128, R_i32max, R_2p53}
 ScalarVals ==
   {Null, Bool(TRUE), Bool(FALSE)}
   \cup {Num(r) : r \in {R_m129, R_m128, R_m2, R_m1h, R_m1, R_mh, R_0, R_q, R_h, R_1, R_1h, R_2, R_2h, R_3, R_4,
-                        R_127, R_128, R_255, R_i32max, R_i32max1, R_2p53m1, R_2p53, R_2p63, R_p3, R_p1p2}}
+                        R_127, R_128, R_255, R_i32max, R_i32max1, R_2p53m1, R_2p53, R_2p63, R_p3, R_p1p2,
+                        R_1ulp, R_2p51h, R_4ulp}}        \* (one unit in the last place beside a multiple of 1, 1/2, 2)
   \cup {Str(x) : x \in {"", "a", "b", "ab", "abc", "aXc", "U_e1", "U_e2", "U_g1", "U_ae"}}
 F1Atoms ==
   {[type |-> t] : t \in TypeNames}
@@ -54,6 +55,7 @@ F1Atoms ==
   \cup {[enum |-> e] : e \in {<<>>, <<Num(R_1)>>, <<Null, Str("a")>>, <<Num(R_2), Str(""), Bool(FALSE)>>, <<Str("U_e1"), Num(R_h)>>}}
   \cup {[const |-> c] : c \in {Null, Num(R_0), Num(R_2p53), Str("U_e2"), Bool(TRUE), Str("")}}
   \cup {[multipleOf |-> r] : r \in {R_q, R_h, R_1, R_1h, R_2, R_3}}
+  \cup {[not |-> [multipleOf |-> R_1]], [oneOf |-> <<[multipleOf |-> R_h], [minimum |-> R_1]>>]}
   \cup {[minimum |-> r] : r \in NumOps} \cup {[maximum |-> r] : r \in NumOps}
   \cup {[exclusiveMinimum |-> r] : r \in NumOps} \cup {[exclusiveMaximum |-> r] : r \in NumOps}
   \cup {[minLength |-> k] : k \in 0..3} \cup {[maxLength |-> k] : k \in 0..3}
@@ -428,8 +430,12 @@ DyVals == {Num(Mark[i]) : i \in 1..(K + 1)} \cup {Str("a")}
 FkKindSets == [1..5 -> {"dyn", "none"}]
 \* fork = "props": the two paths hang under two properties; "anyOf" / "contains": under two branches of one applicator
 \* that goes on after a branch has FAILED (whatever the failed branch entered is no longer in scope)
+\* "allOfItems": BOTH paths are taken for the SAME instance (allOf), and the site applies its reference to the items
+\* of the instance: one subschema object meets one instance value twice in one call, under two dynamic scopes
 FkBodyF(i, hk, fin, fork) ==
   CASE i = 0 /\ fork = "anyOf" -> [anyOf |-> <<HopTo(1, hk), HopTo(2, hk)>>]
+    [] i = 0 /\ fork = "allOfItems" -> [allOf |-> <<HopTo(1, hk), HopTo(2, hk)>>]
+    [] i = 3 /\ fork = "allOfItems" -> [items |-> [items |-> DyFinal(fin)]]     \* (the items are arrays themselves)
     [] i = 0 /\ fork = "contains" -> [contains |-> HopTo(1, hk), unevaluatedItems |-> HopTo(2, hk)]
     [] i = 0 -> [properties |-> [p |-> HopTo(1, hk), q |-> HopTo(2, hk)]]
     [] i \in {1, 2} -> HopTo(3, hk)
@@ -458,7 +464,7 @@ FkEmbeddedF(kinds, hk, fin, fork) ==
                s |-> [defs |-> [t |-> TNode(kinds[1], 0)] @@ [i \in {RN[j] : j \in 1..4} |->
                                     FkResF(CHOOSE j \in 1..4 : RN[j] = i, kinds, hk, fin, TRUE, fork)]]
                      @@ FkBodyF(0, hk, fin, fork)]>>]
-FkForkCases(z) == {FkEmbeddedF(kinds, "ref", fin, fork) : kinds \in FkKindSets, fin \in FkFinals, fork \in {"anyOf", "contains"}}
+FkForkCases(z) == {FkEmbeddedF(kinds, "ref", fin, fork) : kinds \in FkKindSets, fin \in FkFinals, fork \in {"anyOf", "contains", "allOfItems"}}
 \* failed branches: an applicator that goes on after a failure (anyOf, oneOf, not, if) first tries a branch whose
 \* property subschemas ARE resources r1 (under p) and r2 (under q) declaring the anchor on their roots - each
 \* accepts only its own mark, so one or both fail - and then enters r3, whose $dynamicRef must see only the
@@ -478,7 +484,8 @@ FkFailCases(z) == {FkFailDoc(kinds, fork) : kinds \in [1..3 -> {"dyn", "none"}],
 FkCases(z) ==
   UNION {{FkEmbedded(kinds, hk, fin), FkRemote(kinds, hk, fin)} :
            kinds \in FkKindSets, hk \in (IF K >= 2 THEN {"ref", "allOf", "dref"} ELSE {"ref"}), fin \in FkFinals}
-FkVals == {Obj([p |-> Num(Mark[i])]) : i \in 1..5} \cup {Obj([q |-> Num(Mark[i])]) : i \in 1..5}
+FkVals == {Arr(<<Arr(<<Num(Mark[i])>>)>>) : i \in 1..5} \cup {Arr(<<Arr(<<Num(Mark[2])>>), Arr(<<Num(Mark[3])>>)>>), Arr(<<Num(Mark[2])>>)} \cup
+          {Obj([p |-> Num(Mark[i])]) : i \in 1..5} \cup {Obj([q |-> Num(Mark[i])]) : i \in 1..5}
           \cup {Obj([p |-> Num(Mark[i]), q |-> Num(Mark[j])]) : i \in 1..5, j \in 1..5}
           \cup {Num(Mark[i]) : i \in 1..5} \cup {Arr(<<Num(Mark[i]), Num(Mark[j])>>) : i \in 1..5, j \in 1..5} \cup {Arr(<<Num(Mark[i])>>) : i \in 1..5}
 
@@ -654,7 +661,10 @@ Insts == SetToSeq(InstSet)
 
 \* multipleOf is only specified on the dyadic / 2^53 domain
 RootS(U) == U.docs[1].s
-InDomain(U, v) == (v.t = "num" /\ Has(RootS(U), "multipleOf")) => v.n \in NumSmall
+MentionsMult(s) == \/ Has(s, "multipleOf")
+                   \/ Has(s, "not") /\ ~Has(s["not"], "bool") /\ Has(s["not"], "multipleOf")
+                   \/ Has(s, "oneOf") /\ \E i \in DOMAIN s.oneOf : ~Has(s.oneOf[i], "bool") /\ Has(s.oneOf[i], "multipleOf")
+InDomain(U, v) == (v.t = "num" /\ MentionsMult(RootS(U))) => v.n \in NumSmall
 
 Skip == [skip |-> TRUE]
 
